@@ -116,7 +116,7 @@ pub const NAME_POOL: &[&str] = &[
     "+00:00", "機能A", "a b", "x=y", "--flag", "<!-- <", "> -->", "true",
 ];
 
-const E_BASE: i64 = 1_704_067_200; // 2024-01-01T00:00:00Z
+const NEW_YEAR: i64 = 1_704_067_200; // 2024-01-01T00:00:00Z
 
 fn gen_variant(rng: &mut Rng, scn_targets: usize, doc: &Doc, mode: Mode) -> Variant {
     let in_path = rng.pick(&["src.txt", "dir/input.js", "コード.html", "a b.txt"]).to_string();
@@ -229,6 +229,18 @@ fn gen_variant(rng: &mut Rng, scn_targets: usize, doc: &Doc, mode: Mode) -> Vari
 pub fn generate(seed: u64) -> C20Scn {
     let mut rng = Rng::new(seed);
     // expiry instants E1<E2<E3 around `now`
+    // the base instant: New Year, or inside a daylight-saving transition of one of the zones
+    // the TZ pool contains (repeated / skipped local hour), where a conversion through local
+    // wall-clock time is ambiguous or impossible
+    #[allow(non_snake_case)]
+    let E_BASE: i64 = *rng.pick(&[
+        NEW_YEAR, NEW_YEAR, NEW_YEAR,
+        1_730_626_200, // 2024-11-03T09:30:00Z  America/Los_Angeles: 01:30 happens twice
+        1_729_989_000, // 2024-10-27T00:30:00Z  Europe/London: 01:30 happens twice
+        1_710_066_600, // 2024-03-10T10:30:00Z  America/Los_Angeles: 02:30 does not exist
+        1_711_848_600, // 2024-03-31T01:30:00Z  Europe/London: 01:30 does not exist
+        1_712_417_400, // 2024-04-06T15:30:00Z  Australia/Lord_Howe: half-hour shift
+    ]);
     let e = [E_BASE - 86_400, E_BASE, E_BASE + 1, E_BASE + 86_400 * 400];
     let off_secs = if rng.chance(1, 2) { 0 } else { rng.range(-48, 56) * 900 };
     let offset = if off_secs == 0 && rng.chance(2, 3) { None } else { Some(reftime::format_offset(off_secs, rng.chance(1, 2))) };
@@ -275,7 +287,7 @@ pub fn generate(seed: u64) -> C20Scn {
     crate::c19::avoid_known_c01_panic(&mut doc);
     let mode = *rng.pick(&[Mode::Clean, Mode::Clean, Mode::Clean, Mode::List, Mode::ListAll]);
     let json = mode != Mode::Clean && rng.chance(1, 2);
-    let now_sec = *rng.pick(&[E_BASE - 1, E_BASE, E_BASE + 1, E_BASE - 86_400, E_BASE + 86_400 * 30, E_BASE - 86_400 * 365]);
+    let now_sec = *rng.pick(&[E_BASE - 1, E_BASE, E_BASE + 1, E_BASE - 600, E_BASE + 600, E_BASE - 86_400, E_BASE + 86_400 * 30, E_BASE - 86_400 * 365]);
     let now_nsec = *rng.pick(&[0i64, 0, 1, 999_999_999, 500_000_000]);
     let n_variants = 3 + rng.usize(5);
     let variants: Vec<Variant> = (0..n_variants).map(|_| gen_variant(&mut rng, targets.len(), &doc, mode)).collect();
